@@ -304,7 +304,16 @@ static void chan_create(int id)
 		fd[0] = eventfd(0, 0);
 		fd[1] = fd[0];
 		break;
-	case 3:	/* dead descriptor number */
+	case 3:	/* dead descriptor number: one that was open a moment ago, so that it will be handed out again */
+		if (PL->seed & 4) {
+			int p2[2];
+			if (pipe(p2) == 0) {
+				raw_close(p2[0]);
+				raw_close(p2[1]);
+				fd[0] = fd[1] = p2[0];
+				break;
+			}
+		}
 		fd[0] = fd[1] = 1000 + id;
 		break;
 	case 4:	/* a file that epoll refuses (EPERM) */
@@ -461,6 +470,8 @@ static int op_reg(struct rthr *th, int id, const struct pop *op)
 			try = 1;	/* only the _try variant may be used on descriptors that cannot be polled */
 		if (!c->copen[end] && c->ctype != 3)
 			return 0;
+		if (c->ctype == 3 && fcntl(c->cfd[end], F_GETFD) != -1)
+			return 0;	/* the number has been reused meanwhile: it is somebody's live descriptor now */
 		if (chan_end_in_use(chan, end))
 			return 0;
 		fd = c->cfd[end];
@@ -726,7 +737,7 @@ static int op_seth(struct rthr *th, int id, int band, int var)
 	return 1;
 }
 
-static int op_post(struct rthr *th, int id)
+int op_post(struct rthr *th, int id, int limited)
 {
 	struct robj *o = &RO[id];
 	const struct pobj *po = &PL->obj[id];
@@ -740,7 +751,7 @@ static int op_post(struct rthr *th, int id)
 		return 0;	/* only pinned objects may be posted to from other threads */
 	if ((teardown_started || o->closing) && !mine)
 		return 0;
-	if (o->posts >= 4 * CB_LIMIT)
+	if (limited && o->posts >= 4 * CB_LIMIT)
 		return 0;
 	if (o->post_begin_seq > o->last_entry_seq)
 		PROBE[PR_POST_COALESCED]++;
@@ -785,7 +796,7 @@ int exec_op(struct rthr *th, const struct pop *op)
 		break;
 	case OP_POST:
 		if (op->d >= 0 && op->d < PL->nobj)
-			r = op_post(th, (int)op->d);
+			r = op_post(th, (int)op->d, 1);
 		break;
 	case OP_QUIT:
 		if (th && th->inited && th->in_main) {
@@ -1064,7 +1075,13 @@ static void obs_wait_enter(int tid, int prim, int64_t tmo, int nfds)
 	} else if (th->quit_req) {
 		viol("C07.no_return", "thread %d: loop polls again although iv_quit was called", thr_idx(th));
 	} else if (live_upper(th) == 0) {
-		viol("C07.no_return", "thread %d: loop polls again although nothing is registered", thr_idx(th));
+		/* one more non-blocking pass is legitimate (a library-internal task, e.g. the local event
+		 * dispatcher, may still be queued after the last user object went away); blocking, or going
+		 * round repeatedly, is not */
+		if (++th->idle_polls >= 3)
+			viol("C07.no_return", "thread %d: loop polls for the %dth time in a row although nothing is registered", thr_idx(th), th->idle_polls);
+	} else {
+		th->idle_polls = 0;
 	}
 	if (have_viol())
 		finish(1);
@@ -1080,6 +1097,8 @@ static void obs_wait_block(int tid)
 	t = thr_idx(th);
 	th->spin = 0;
 	PROBE[PR_BLOCK]++;
+	if (th->in_main && !th->quit_req && live_upper(th) == 0)
+		viol("C07.no_return", "thread %d: loop blocks in the kernel although nothing is registered", t);
 	for (i = 0; i < PL->nobj; i++) {
 		struct robj *o = &RO[i];
 		const struct pobj *po = &PL->obj[i];
@@ -1316,7 +1335,7 @@ static void asan_cb(const char *report)
 		viol("C01.uaf", "library touched an object the caller freed after unregister (%s %s) %s", d,
 		     __asan_get_report_access_type && __asan_get_report_access_type() ? "WRITE" : "READ", ext_uaf_hint());
 		{
-			static const char *byk[K_MAX] = { [K_SIGNAL] = "C10.uaf", [K_WAIT] = "C11.uaf", [K_POOL] = "C13.uaf",
+			static const char *byk[K_MAX] = { [K_FD] = "C03.uaf", [K_SIGNAL] = "C10.uaf", [K_WAIT] = "C11.uaf", [K_POOL] = "C13.uaf",
 				[K_ITEM] = "C12.uaf", [K_POPEN] = "C19.uaf", [K_INOT] = "C20.uaf", [K_WATCH] = "C20.uaf", [K_PUMP] = "C17.uaf" };
 			if (fkind > 0 && fkind < K_MAX && byk[fkind])
 				viol(byk[fkind], "use after free of a caller-owned %s object: %s in %s", kind_name(fkind), d, first);
